@@ -255,7 +255,7 @@ impl Mesh {
 struct MeshNearCheck<'a> {
     this_mesh: &'a Mesh,
     ref_mesh: &'a Mesh,
-    checked: HashMap<u32, bool>,
+    checked: HashMap<u32, (bool, Option<UnitVec3>)>,
     distance_tol: f64,
     planar_tol: Option<f64>,
     angle_tol: Option<f64>,
@@ -279,22 +279,20 @@ impl<'a> MeshNearCheck<'a> {
         }
     }
 
-    fn store_and_return(&mut self, vertex_index: u32, result: bool) -> bool {
-        self.checked.insert(vertex_index, result);
-        result
-    }
-
     fn near_check(&mut self, vertex_index: u32, face_normal: Option<UnitVec3>) -> bool {
-        if let Some(&checked) = self.checked.get(&vertex_index) {
-            checked
+        // The distance and planar tests depend only on the vertex, so their outcome (and the normal
+        // of the reference triangle the vertex projects to) is cached per vertex. The angle test
+        // also depends on the normal of the face being evaluated, so it is evaluated for each face.
+        let (vertex_ok, ref_normal) = if let Some(&cached) = self.checked.get(&vertex_index) {
+            cached
         } else {
             let p = self.this_mesh.vertices()[vertex_index as usize];
 
-            let is_ok = if let Some((prj, ri, _loc)) =
+            let result = if let Some((prj, ri, _loc)) =
                 self.ref_mesh.project_with_max_dist(&p, self.distance_tol)
             {
                 if self.planar_tol.is_none() && self.angle_tol.is_none() {
-                    true
+                    (true, None)
                 } else if let Some(rn) = self.ref_mesh.shape.triangle(ri).normal() {
                     // We need to get the normal of the reference triangle
                     let rsp = SurfacePoint3::new(prj.point, rn);
@@ -305,26 +303,32 @@ impl<'a> MeshNearCheck<'a> {
                         true
                     };
 
-                    let check_angle = if let Some(angle_tol) = self.angle_tol {
-                        if let Some(face_normal) = face_normal {
-                            face_normal.angle(&rn) <= angle_tol
-                        } else {
-                            // No face normal, so we can't check the angle, assume it's bad?
-                            false
-                        }
-                    } else {
-                        true
-                    };
-
-                    check_planar && check_angle
+                    (check_planar, Some(rn))
                 } else {
-                    false
+                    (false, None)
                 }
             } else {
-                false
+                (false, None)
             };
 
-            self.store_and_return(vertex_index, is_ok)
+            self.checked.insert(vertex_index, result);
+            result
+        };
+
+        if !vertex_ok {
+            return false;
+        }
+
+        match (self.angle_tol, ref_normal) {
+            (Some(angle_tol), Some(rn)) => {
+                if let Some(face_normal) = face_normal {
+                    face_normal.angle(&rn) <= angle_tol
+                } else {
+                    // No face normal, so we can't check the angle, assume it's bad?
+                    false
+                }
+            }
+            _ => true,
         }
     }
 }
